@@ -142,7 +142,11 @@ func main() {
 	exit := 0
 	var norm *Prog
 	var normDone []string
+	var normOverlay map[string][]byte
 	normTried := false
+	var inl *Prog
+	var inlDone []string
+	inlTried := false
 	for _, id := range ids {
 		rep := NewReport(id, *tier, seed)
 		c := NewCtx(p, rep, *tier)
@@ -154,7 +158,7 @@ func main() {
 		// invisible to rules that read direct calls.
 		if !normTried {
 			normTried = true
-			if files, done := SpecialiseHigherOrder(*repo, overlay); len(done) > 0 {
+			if files, done := SpecialiseHigherOrder(*repo, overlay, c.protectedKeys()); len(done) > 0 {
 				merged := map[string][]byte{}
 				for k, v := range overlay {
 					merged[k] = v
@@ -163,7 +167,7 @@ func main() {
 					merged[k] = v
 				}
 				if np, err := Load(*repo, merged, "", true); err == nil {
-					norm, normDone = np, done
+					norm, normDone, normOverlay = np, done, merged
 				} else if os.Getenv("FCHECK_DEBUG") != "" {
 					fmt.Println("normalisation discarded:", err)
 				}
@@ -181,7 +185,7 @@ func main() {
 					}
 				}
 				if d := os.Getenv("FCHECK_DUMP_NORMALISED"); d != "" {
-					if files, _ := SpecialiseHigherOrder(*repo, overlay); files != nil {
+					if files, _ := SpecialiseHigherOrder(*repo, overlay, c.protectedKeys()); files != nil {
 						for k, v := range files {
 							os.WriteFile(filepath.Join(d, filepath.Base(k)), v, 0o644)
 						}
@@ -199,6 +203,48 @@ func main() {
 					if o.Verdict == Violation && o.Construct != "VACUOUS" {
 						rep.Add(o.Rule, o.Construct+" [first-order form]", o.Pos, Violation, o.Reason)
 					}
+				}
+			}
+		}
+		// Extracted single-use helpers are folded back into their callers (see inline.go) when something is still
+		// raised: the verdict of that equivalent program stands if it is clean.
+		if rep.failing(vdir) > 0 && os.Getenv("FCHECK_NO_INLINE") == "" {
+			if !inlTried {
+				inlTried = true
+				base, baseOverlay, baseCtx := p, overlay, c
+				if norm != nil {
+					base, baseOverlay = norm, normOverlay
+					baseCtx = NewCtx(norm, NewReport(id, *tier, seed), *tier)
+				}
+				if files, done := InlineSingleUse(*repo, baseOverlay, base, baseCtx.protectedKeys(), 4); len(done) > 0 {
+					if np, err := Load(*repo, files, "", true); err == nil {
+						inl, inlDone = np, done
+					} else if os.Getenv("FCHECK_DEBUG") != "" {
+						fmt.Println("inlined program discarded:", err)
+					}
+					if d := os.Getenv("FCHECK_DUMP_INLINED"); d != "" {
+						for k, v := range files {
+							os.WriteFile(filepath.Join(d, filepath.Base(k)), v, 0o644)
+						}
+					}
+				}
+			}
+			if inl != nil {
+				rep3 := NewReport(id, *tier, seed)
+				c3 := NewCtx(inl, rep3, *tier)
+				runProp(c3, props[id])
+				rep3.Analysed["inlined_single_use_helpers"] = inlDone
+				if os.Getenv("FCHECK_DEBUG") != "" {
+					fmt.Println("inlined:", inlDone)
+					for _, o := range rep3.Obs {
+						if o.Verdict != OK {
+							fmt.Printf("inlined program: %s %s: %s: %s: %s\n", o.Verdict, o.Pos, o.Rule, o.Construct, o.Reason)
+						}
+					}
+				}
+				if rep3.failing(vdir) == 0 {
+					rep3.Add(id+".normalisation", "single-use helpers expanded at their call sites", "-", OK, "")
+					rep, c = rep3, c3
 				}
 			}
 		}
